@@ -144,7 +144,7 @@ func init() {
 	Register(Spec[pcCase]{
 		ID: "C16", Suite: "answer", CoqImports: imports,
 		CoqType: "Check.CodecPC.pc_case", CoqRun: "Check.CodecPC.run",
-		Quick: 1200, Thorough: 40000, Parallel: 8,
+		Quick: 1200, Thorough: 20000, Parallel: 8,
 		Corpus: func() []pcCase {
 			vp8 := cdc{Mime: "video/VP8", Clock: 90000, PT: 96}
 			return []pcCase{
